@@ -1,4 +1,5 @@
 """C07 — check, compile and run agree on which sources are valid."""
+import re
 from ..facts import callee_of, short, sp_file_line, expr_str, expr_walk
 from .. import kit
 from ..stages import StageAnalysis, STAGES, ALL, EMPTY
@@ -185,8 +186,33 @@ def run(ctx):
                               "`%s` arm: `%s` can reach the feature flag (%s) but no call to features::init dominates it — "
                               "the accessor panics \"before initialization\" for a source using push/pop/call/rets"
                               % (unit, short(c), " -> ".join(short(x) for x in p)))
-    ctx.assume("the handler passed to hotwatch runs on the thread that called Hotwatch::run (blocking API), "
-               "so a thread-local flag initialised before `watch` is visible to it")
+    # the flag is thread-local: a closure that can read it must run on the thread that initialised it. Whoever receives such a
+    # closure is therefore either same-thread by construction (core/alloc have no threads; std outside std::thread; hotwatch's
+    # *blocking* watcher calls its handler from `run()` on the calling thread), or the closure initialises the flag itself.
+    SAME_THREAD = re.compile(r"^(core::|alloc::|<?&?(mut )?core::|hotwatch::blocking::|std::(?!thread::))")
+    nrecv = 0
+    for b in sorted(main.live_blocks()):
+        t = main.term(b)
+        if t["k"] != "call":
+            continue
+        for cl in t["f"].get("closures", []):
+            nm = cl[3:] if cl.startswith("fn:") else cl
+            if nm not in may_read or nm not in prog.fns or prog.fns[nm].d.get("defkind") != "Closure":
+                continue
+            nrecv += 1
+            ctx.instance(1)
+            c = callee_of(t) or "?"
+            cf = prog.fns[nm]
+            own_init = [ib for ib, tt, cc in cf.calls() if cc == INIT]
+            self_init = bool(own_init) and all(any(cf.dominates(ib, rb) for ib in own_init) for rb, tt, cc in cf.calls() if cc in may_read or cc == FLAG_READ)
+            ok = bool(SAME_THREAD.search(c)) or self_init
+            ctx.oblig(ok, {"closure": short(nm), "handed to": short(c), "unit": unit_of.get(b, "?")}, "runs on the initialising thread (or initialises the flag itself)")
+            if not ok:
+                ctx.violation("handler-thread|%s" % short(c), sp_file_line(t.get("sp")),
+                              "the closure `%s`, which can reach the thread-local feature flag, is handed to `%s`; that is not known to call it on the thread "
+                              "where features::init ran, and the closure does not initialise the flag itself: on another thread the accessor panics "
+                              "\"before initialization\" for a source using push/pop/call/rets" % (short(nm), short(c)))
+    ctx.note("%d flag-reading closure(s) handed to a callee" % nrecv)
     ctx.finish_rule()
 
     # ------------------------------------------------------------------ R3: the flag comes from the command line
